@@ -325,6 +325,33 @@ func c14() *core.Check {
 				return
 			}
 			w.Eval(1)
+			// history spice: attack inputs are interleaved in the same process and
+			// benign inputs asked ~500 cases earlier are asked again (a result
+			// cache that leaks an attack's verdict to a benign input shows here)
+			st, _ := w.Local["c14"].(*c14State)
+			if st == nil {
+				st = &c14State{}
+				w.Local["c14"] = st
+			}
+			st.n++
+			if st.n%8 == 0 {
+				// distinct attack strings (a counter in a trailing comment), so that
+				// each one is a new entry for any cache
+				li.IsSQLi(c14Attacks[(st.n/8)%len(c14Attacks)] + " -- " + strconv.Itoa(st.n*31+w.ID))
+			}
+			if st.n%16 == 0 {
+				slot := (st.n / 16) % len(st.ring)
+				if old := st.ring[slot]; old != "" {
+					if ob, of := li.IsSQLi(old); ob || of != "" {
+						w.SetCur(core.Case{In: old, Kind: "re-asked"})
+						// observed directly; a fresh single-call process cannot replay a history
+						w.ViolateConfirmed("benign-reported", fmt.Sprintf("IsSQLi(%q) = (%v,%q) when the benign input was asked again after ~500 other calls (incl. attack inputs)", old, ob, of))
+						w.SetCur(c)
+					}
+					w.Count("benign_inputs_re_asked", 1)
+				}
+				st.ring[slot] = c.In
+			}
 			b, f := li.IsSQLi(c.In)
 			if b || f != "" {
 				w.Violate("benign-reported", fmt.Sprintf("IsSQLi(%q) = (%v,%q) for a member of the benign family (%s %s)\n%s", c.In, b, f, c.Kind, c.S, explainCascadeOf(c.In)))
@@ -357,6 +384,13 @@ func c14() *core.Check {
 		Assumptions: []string{"the family is defined against the live keyword table (read through the accessor); the e-mail/decimal/sentence shapes were calibrated once on the repaired tree"},
 	}
 }
+
+type c14State struct {
+	n    int
+	ring [32]string
+}
+
+var c14Attacks = []string{"1 union select 1 from t", "1' or '1'='1", "1; drop table t", "x' and sleep(5) -- ", "1 or 1=1", "admin'--", "1\" or 1=1 #", "1 /*!50000union*/ select 1", "1 and 1=1 union select null,null -- ", "' or 'a'='a"}
 
 // CalibrateC14 prints shapes with reported instances (construction tool).
 func CalibrateC14() {
